@@ -10,7 +10,7 @@ D# = -7
 L& = 2147483647
 I% = -32768
 Q! = 2.5
-PRINT CR$
+PRINT
 PRINT , "|"
 LPRINT , "|"
 PRINT #1, , "|"
